@@ -43,50 +43,43 @@ theorem mem_allRoutineLabels {bodies : List Stmts} {body : Stmts} (hb : body ∈
   simp only [Src.allRoutineLabels, List.mem_flatMap, List.mem_map]
   exact ⟨⟨some (toSrcStmts body)⟩, ⟨body, hb, rfl⟩, dfSStmts_sub _ n (dfs_sub body n hn)⟩
 
-theorem codegen_correct_cg (lv : Nat) (p : Program) (t : Tables) (hp : CgProg lv p) (hf : frontend p = .ok t) (j : Nat) (r : Routine)
+theorem getElem?_lt' {α : Type} {l : List α} {i : Nat} {x : α} (h : l[i]? = some x) : i < l.length := by
+  rcases Nat.lt_or_ge i l.length with h' | h'
+  · exact h'
+  · rw [List.getElem?_eq_none h'] at h; cases h
+
+/-- the core: the routines compiled with the macros `cm`, given that macro calls are pieces -/
+theorem codegen_correct_core (lv : Nat) (p : Program) (cm : Macros) (t2 : Tables) (sF : St) (hlab : (labelIds t2.ops.flatten).Nodup)
+    (hseq : seqFrom p.routines 0 = true) (hall : ∀ r ∈ p.routines, cgStmts lv r.body = true)
+    (hml : ∀ r ∈ p.routines, ∀ n ∈ mlStmts r.body, n ∈ allDefs p)
+    (hr : compileRoutines cm p.routines 0 ⟨[], [], []⟩ St.init = .ok (t2, sF))
+    (hM : ∀ cx : Cx, cx.cm = cm → cx.sm = (toSrc p).macros → MacOK cx ((toSrc p).macros.length + 1)) (j : Nat) (r : Routine)
     (hj : p.routines[j]? = some r) :
-    ∃ e, (toSrc p).graph.entries[j]? = some (some e) ∧
-      Equivalent (toSrc p).graph.lts (labLTS t.ops) e (labEntry t.ops j) := by
-  have hlab : (labelIds t.ops.flatten).Nodup := (frontend_wfl' p t (frontGuard_of_cg lv p hp) hf).2.1
-  obtain ⟨hm, hseq, hall, hnd, hml⟩ := hp
-  have hmac : (toSrc p).macros = [] := by simp [toSrc, hm]
-  -- the run of the front end
-  unfold frontend at hf
-  rw [hm] at hf
-  simp only [sortMacros, compileMacros] at hf
-  have hpure : (pure ([] : Macros) : M Macros) St.init = .ok ([], St.init) := rfl
-  rw [hpure] at hf
-  simp only at hf
-  cases hr : wrapAssert (compileRoutines [] p.routines 0 ⟨[], [], []⟩ St.init) with
-  | error e => rw [hr] at hf; simp at hf
-  | ok r2 =>
-  obtain ⟨t2, sF⟩ := r2
-  rw [hr] at hf
-  simp only [Except.ok.injEq] at hf
-  subst hf
+    j < t2.ops.length ∧ ∃ e, (toSrc p).graph.entries[j]? = some (some e) ∧
+      Equivalent (toSrc p).graph.lts (labLTS t2.ops) e (labEntry t2.ops j) := by
   -- the graph of the source program
   have hrt : (toSrc p).routines = (p.routines.map (·.body)).map fun b => (⟨some (toSrcStmts b)⟩ : Src.Routine) := by
     simp only [toSrc]
     rw [placeRoutines_seq p.routines 0 [] hseq rfl]
     simp
-  let fuel : Nat := 1
+  let fuel : Nat := (toSrc p).macros.length + 1
   let b1 : Src.B := ⟨#[.halt evReturn]⟩
   have hg : (toSrc p).graph = ⟨(((p.routines.map (·.body)).map fun b => (⟨some (toSrcStmts b)⟩ : Src.Routine)).foldl
-      (graphStep fuel [] { labels := (Src.allocLabels b1 (Src.allRoutineLabels
+      (graphStep fuel (toSrc p).macros { labels := (Src.allocLabels b1 (Src.allRoutineLabels
         ((p.routines.map (·.body)).map fun b => (⟨some (toSrcStmts b)⟩ : Src.Routine)))).2 } 0)
         ((Src.allocLabels b1 (Src.allRoutineLabels ((p.routines.map (·.body)).map fun b => (⟨some (toSrcStmts b)⟩ : Src.Routine)))).1, [])).1.nodes,
       (((p.routines.map (·.body)).map fun b => (⟨some (toSrcStmts b)⟩ : Src.Routine)).foldl
-      (graphStep fuel [] { labels := (Src.allocLabels b1 (Src.allRoutineLabels
+      (graphStep fuel (toSrc p).macros { labels := (Src.allocLabels b1 (Src.allRoutineLabels
         ((p.routines.map (·.body)).map fun b => (⟨some (toSrcStmts b)⟩ : Src.Routine)))).2 } 0)
         ((Src.allocLabels b1 (Src.allRoutineLabels ((p.routines.map (·.body)).map fun b => (⟨some (toSrcStmts b)⟩ : Src.Routine)))).1, [])).2⟩ := by
     simp only [Src.Program.graph]
-    rw [hrt, hmac]
+    rw [hrt]
     rfl
   obtain ⟨ainv, acov⟩ := allocLabels_spec b1 (Src.allRoutineLabels ((p.routines.map (·.body)).map fun b => (⟨some (toSrcStmts b)⟩ : Src.Routine)))
   generalize hAL : Src.allocLabels b1 (Src.allRoutineLabels ((p.routines.map (·.body)).map fun b => (⟨some (toSrcStmts b)⟩ : Src.Routine))) = AL
     at hg ainv acov
   have hb1 : (tbl b1).length = 1 := rfl
-  let cx : Cx := { rs := t2.ops, N := (toSrc p).graph.nodes.toList, hlab := hlab, Z := fun i => 0 < i ∧ i < AL.2.length + 1, named := sF.named, defs := allDefs p }
+  let cx : Cx := { rs := t2.ops, N := (toSrc p).graph.nodes.toList, hlab := hlab, Z := fun i => 0 < i ∧ i < AL.2.length + 1, named := sF.named, defs := allDefs p, sm := (toSrc p).macros, cm := cm }
   have hZ : ∀ i, cx.Z i → i < (tbl AL.1).length := by
     intro i hi
     have hi' : 0 < i ∧ i < AL.2.length + 1 := hi
@@ -95,22 +88,22 @@ theorem codegen_correct_cg (lv : Nat) (p : Program) (t : Tables) (hp : CgProg lv
     have := ainv.node n i h
     show 0 < i ∧ i < AL.2.length + 1
     rw [hb1] at this; omega⟩
-  have hM0 : MacOK cx fuel := macOK_nil cx fuel rfl
+  have hM0 : MacOK cx fuel := hM cx rfl rfl
   -- the front end's tables
   have hruns : ∀ (j' : Nat) (r' : Routine), p.routines[j']? = some r' → ∃ its lb s1 ops s2, t2.ops[j']? = some its ∧ s1.loops = [] ∧
-      s1.cases = [] ∧ cStmts [] lb r'.body s1 = .ok (ops, s2) ∧ NamedLe s2 sF ∧
+      s1.cases = [] ∧ cStmts cm lb r'.body s1 = .ok (ops, s2) ∧ NamedLe s2 sF ∧
       (its = ops ∨ ∃ o, its = ops ++ [.op ⟨o, Gen.op_dummy_end, []⟩]) := by
     intro j' r' hj'
-    have := (compileRoutines_cg [] p.routines 0 _ _ _ _ hseq rfl rfl (fun r hr lb s ops s2 h =>
-      (cStmts_c cx fuel lv hM0 r.body lb (hall r hr) (hml r hr) _ henv s ops s2 h).stk) rfl rfl (wrapAssert_ok hr)).2.2 j' r' hj'
+    have := (compileRoutines_cg cm p.routines 0 _ _ _ _ hseq rfl rfl (fun r hr lb s ops s2 h =>
+      (cStmts_c cx fuel lv hM0 r.body lb (hall r hr) (hml r hr) _ henv s ops s2 h).stk) rfl rfl hr).2.2 j' r' hj'
     simpa using this
   -- every body's source translation only grows the table
   have hgrow : ∀ body ∈ p.routines.map (·.body), ∀ k b,
-      Grow cx.Z b (Src.trStmts fuel [] { labels := AL.2 } (toSrcStmts body) k b).1 :=
-    fun body _ k b => (trStmts_good' cx.Z fuel [] (toSrcStmts body) _ henv.dense k b).1
-  obtain ⟨g1, _, paths⟩ := graph_fold fuel [] { labels := AL.2 } 0 cx.Z (p.routines.map (·.body)) hgrow (AL.1, [])
+      Grow cx.Z b (Src.trStmts fuel (toSrc p).macros { labels := AL.2 } (toSrcStmts body) k b).1 :=
+    fun body _ k b => (trStmts_good' cx.Z fuel (toSrc p).macros (toSrcStmts body) _ henv.dense k b).1
+  obtain ⟨g1, _, paths⟩ := graph_fold fuel (toSrc p).macros { labels := AL.2 } 0 cx.Z (p.routines.map (·.body)) hgrow (AL.1, [])
   have hN : cx.N = tbl (((p.routines.map (·.body)).map fun b => (⟨some (toSrcStmts b)⟩ : Src.Routine)).foldl
-      (graphStep fuel [] { labels := AL.2 } 0) (AL.1, [])).1 := by
+      (graphStep fuel (toSrc p).macros { labels := AL.2 } 0) (AL.1, [])).1 := by
     show (toSrc p).graph.nodes.toList = _
     rw [hg]; rfl
   have hlenAL : 0 < (tbl AL.1).length := by have := ainv.pushes.len; omega
@@ -122,17 +115,17 @@ theorem codegen_correct_cg (lv : Nat) (p : Program) (t : Tables) (hp : CgProg lv
     ∃ i, AL.2.lookup n = some i ∧ R2 cx m jj (target cx.rs (cx.cp.σ id)) i
   -- one routine, given the claim at a level
   have routineAt : ∀ (j' : Nat) (r' : Routine), p.routines[j']? = some r' → ∀ (bj : Src.B),
-      Grow cx.Z (Src.trStmts fuel [] { labels := AL.2 } (toSrcStmts r'.body) 0 bj).1
+      Grow cx.Z (Src.trStmts fuel (toSrc p).macros { labels := AL.2 } (toSrcStmts r'.body) 0 bj).1
         (((p.routines.map (·.body)).map fun b => (⟨some (toSrcStmts b)⟩ : Src.Routine)).foldl
-          (graphStep fuel [] { labels := AL.2 } 0) (AL.1, [])).1 →
+          (graphStep fuel (toSrc p).macros { labels := AL.2 } 0) (AL.1, [])).1 →
       Grow cx.Z AL.1 bj → ∀ m jj, C m jj →
-      R2 cx m jj ⟨j', 0⟩ (Src.trStmts fuel [] { labels := AL.2 } (toSrcStmts r'.body) 0 bj).2 ∧
-      LabExport cx { labels := AL.2 } m jj bj (Src.trStmts fuel [] { labels := AL.2 } (toSrcStmts r'.body) 0 bj).1 := by
+      R2 cx m jj ⟨j', 0⟩ (Src.trStmts fuel (toSrc p).macros { labels := AL.2 } (toSrcStmts r'.body) 0 bj).2 ∧
+      LabExport cx { labels := AL.2 } m jj bj (Src.trStmts fuel (toSrc p).macros { labels := AL.2 } (toSrcStmts r'.body) 0 bj).1 := by
     intro j' r' hj' bj hfin hst m jj hC
     obtain ⟨its, lb, s1, ops, s2, hits, hl1, hc1, hrun, hn2, hshape⟩ := hruns j' r' hj'
     have hmem : r' ∈ p.routines := List.mem_of_getElem? hj'
     have piece := cStmts_c cx fuel lv hM0 r'.body lb (hall r' hmem) (hml r' hmem) _ henv _ _ _ hrun
-    have hag : AgreeOn cx.N cx.Z bj (Src.trStmts fuel [] { labels := AL.2 } (toSrcStmts r'.body) 0 bj).1 := by
+    have hag : AgreeOn cx.N cx.Z bj (Src.trStmts fuel (toSrc p).macros { labels := AL.2 } (toSrcStmts r'.body) 0 bj).1 := by
       refine ⟨fun i hz => Nat.lt_of_lt_of_le (hZ i hz) hst.len, fun i h1 h2 => ?_⟩
       rw [hN]
       exact hfin.get (fun hz => by have := hZ i hz; have := hst.len; omega) h2
@@ -175,14 +168,14 @@ theorem codegen_correct_cg (lv : Nat) (p : Program) (t : Tables) (hp : CgProg lv
       obtain ⟨j0, hj0, hget0⟩ := List.getElem_of_mem hr0
       have hj0' : p.routines[j0]? = some r0 := by rw [List.getElem?_eq_getElem hj0, hget0]
       obtain ⟨bj0, _, hfin0, hst0⟩ := paths j0 r0.body (by simp [hj0'])
-      obtain ⟨kn0, hk0⟩ := (trStmts_good' cx.Z fuel [] (toSrcStmts r0.body) _ henv.dense 0 bj0).2 (fun i' hz' => Nat.lt_of_lt_of_le (hZ i' hz') hst0.len) n
+      obtain ⟨kn0, hk0⟩ := (trStmts_good' cx.Z fuel (toSrc p).macros (toSrcStmts r0.body) _ henv.dense 0 bj0).2 (fun i' hz' => Nat.lt_of_lt_of_le (hZ i' hz') hst0.len) n
         (dfs_sub r0.body n hn0) i hlk
       obtain ⟨kn, hkn⟩ := hfin0.keeps_silent hk0
       have hne : (tbl (((p.routines.map (·.body)).map fun b => (⟨some (toSrcStmts b)⟩ : Src.Routine)).foldl
-          (graphStep fuel [] { labels := AL.2 } 0) (AL.1, [])).1)[i]? ≠ (tbl AL.1)[i]? := by
+          (graphStep fuel (toSrc p).macros { labels := AL.2 } 0) (AL.1, [])).1)[i]? ≠ (tbl AL.1)[i]? := by
         rw [hkn, hph]; simp [phNode]
       obtain ⟨j1, body1, bj1, hb1', hst1, hfin1, heq1, hne1⟩ :=
-        graph_changer fuel [] { labels := AL.2 } 0 cx.Z (p.routines.map (·.body)) hgrow (AL.1, []) i hiAL hne
+        graph_changer fuel (toSrc p).macros { labels := AL.2 } 0 cx.Z (p.routines.map (·.body)) hgrow (AL.1, []) i hiAL hne
       obtain ⟨r1, hr1, rfl⟩ : ∃ r1, p.routines[j1]? = some r1 ∧ r1.body = body1 := by
         simp only [List.getElem?_map, Option.map_eq_some_iff] at hb1'
         exact hb1'
@@ -203,12 +196,34 @@ theorem codegen_correct_cg (lv : Nat) (p : Program) (t : Tables) (hp : CgProg lv
       exact G.silB (lab_label hitem) (nodeStep_of hNi) hR.2
   -- the routine asked for
   obtain ⟨bj, hent, hfin, hst⟩ := paths j r.body (by simp [hj])
-  refine ⟨(Src.trStmts fuel [] { labels := AL.2 } (toSrcStmts r.body) 0 bj).2, ?_, ?_⟩
+  refine ⟨by obtain ⟨its, _, _, _, _, hits, _⟩ := hruns j r hj; exact getElem?_lt' hits, (Src.trStmts fuel (toSrc p).macros { labels := AL.2 } (toSrcStmts r.body) 0 bj).2, ?_, ?_⟩
   · rw [hg]; simpa using hent
-  have hall_m : ∀ m, EE cx m ⟨j, 0⟩ (Src.trStmts fuel [] { labels := AL.2 } (toSrcStmts r.body) 0 bj).2 :=
+  have hall_m : ∀ m, EE cx m ⟨j, 0⟩ (Src.trStmts fuel (toSrc p).macros { labels := AL.2 } (toSrcStmts r.body) 0 bj).2 :=
     fun m => (routineAt j r hj bj hfin hst m 0 (hC m 0)).1.1
-  have heq : Equivalent (labLTS t2.ops) (nodeLTS cx.N) ⟨j, 0⟩ (Src.trStmts fuel [] { labels := AL.2 } (toSrcStmts r.body) 0 bj).2 :=
+  have heq : Equivalent (labLTS t2.ops) (nodeLTS cx.N) ⟨j, 0⟩ (Src.trStmts fuel (toSrc p).macros { labels := AL.2 } (toSrcStmts r.body) 0 bj).2 :=
     E_sound hall_m
   exact equivalent_of_step_eq (graph_step_eq _) heq.symm
+
+theorem codegen_correct_cg (lv : Nat) (p : Program) (t : Tables) (hp : CgProg lv p) (hf : frontend p = .ok t) (j : Nat) (r : Routine)
+    (hj : p.routines[j]? = some r) :
+    ∃ e, (toSrc p).graph.entries[j]? = some (some e) ∧
+      Equivalent (toSrc p).graph.lts (labLTS t.ops) e (labEntry t.ops j) := by
+  have hlab : (labelIds t.ops.flatten).Nodup := (frontend_wfl' p t (frontGuard_of_cg lv p hp) hf).2.1
+  obtain ⟨hm, hseq, hall, hnd, hml⟩ := hp
+  -- the run of the front end
+  unfold frontend at hf
+  rw [hm] at hf
+  simp only [sortMacros, compileMacros] at hf
+  have hpure : (pure ([] : Macros) : M Macros) St.init = .ok ([], St.init) := rfl
+  rw [hpure] at hf
+  simp only at hf
+  cases hr : wrapAssert (compileRoutines [] p.routines 0 ⟨[], [], []⟩ St.init) with
+  | error e => rw [hr] at hf; simp at hf
+  | ok r2 =>
+  obtain ⟨t2, sF⟩ := r2
+  rw [hr] at hf
+  simp only [Except.ok.injEq] at hf
+  subst hf
+  exact (codegen_correct_core lv p [] t2 sF hlab hseq hall hml (wrapAssert_ok hr) (fun cx h1 _ => macOK_nil cx _ h1) j r hj).2
 
 end ESV.Comp
